@@ -232,35 +232,57 @@ int main(int argc, char **argv)
 	}
 	O << "},\n";
 
-	// debug-info structs: member names by offset
+	// debug-info structs: member names by offset.  Two translation units may define different structs with the same name
+	// (struct failed_struct in check.c and in sync.c): the first goes to "distructs", the others to "distructs_alt"
 	DebugInfoFinder dif;
 	dif.processModule(*M);
-	O << "\"distructs\":{";
-	first = true;
 	std::set<std::string> seen;
-	for (DIType *t : dif.types()) {
-		auto *c = dyn_cast<DICompositeType>(t);
-		if (!c) continue;
-		if (c->getTag() != dwarf::DW_TAG_structure_type && c->getTag() != dwarf::DW_TAG_union_type) continue;
-		if (c->getName().empty() || c->isForwardDecl()) continue;
-		std::string nm = c->getName().str();
-		if (!seen.insert(nm).second) continue;
-		if (!first) O << ",";
-		first = false;
-		O << "\n\"" << esc(nm) << "\":{\"size\":" << c->getSizeInBits() / 8 << ",\"members\":[";
-		bool f2 = true;
-		for (const DINode *e : c->getElements()) {
-			auto *m = dyn_cast<DIDerivedType>(e);
-			if (!m || m->getTag() != dwarf::DW_TAG_member) continue;
-			if (!f2) O << ",";
-			f2 = false;
-			O << "{\"name\":\"" << esc(m->getName()) << "\",\"off\":" << m->getOffsetInBits() / 8
-			  << ",\"bitoff\":" << m->getOffsetInBits() << ",\"bits\":" << m->getSizeInBits()
-			  << ",\"ty\":\"" << esc(diTypeName(m->getBaseType())) << "\"}";
+	for (int pass = 0; pass < 2; ++pass) {
+		O << (pass == 0 ? "\"distructs\":{" : "\"distructs_alt\":[");
+		first = true;
+		std::set<std::string> seen_pass;
+		std::set<std::string> emitted_sig;
+		for (DIType *t : dif.types()) {
+			auto *c = dyn_cast<DICompositeType>(t);
+			if (!c) continue;
+			if (c->getTag() != dwarf::DW_TAG_structure_type && c->getTag() != dwarf::DW_TAG_union_type) continue;
+			if (c->getName().empty() || c->isForwardDecl()) continue;
+			std::string nm = c->getName().str();
+			bool is_first = seen_pass.insert(nm).second;
+			if (pass == 0 && !is_first) continue;
+			if (pass == 1 && is_first) continue;
+			std::string body;
+			{
+				std::string tmp;
+				raw_string_ostream B(tmp);
+				B << "{\"size\":" << c->getSizeInBits() / 8 << ",\"members\":[";
+				bool f2 = true;
+				for (const DINode *e : c->getElements()) {
+					auto *m = dyn_cast<DIDerivedType>(e);
+					if (!m || m->getTag() != dwarf::DW_TAG_member) continue;
+					if (!f2) B << ",";
+					f2 = false;
+					B << "{\"name\":\"" << esc(m->getName()) << "\",\"off\":" << m->getOffsetInBits() / 8
+					  << ",\"bitoff\":" << m->getOffsetInBits() << ",\"bits\":" << m->getSizeInBits()
+					  << ",\"ty\":\"" << esc(diTypeName(m->getBaseType())) << "\"}";
+				}
+				B << "]}";
+				B.flush();
+				body = tmp;
+			}
+			if (pass == 1) {
+				// identical re-definitions (same header seen by several units) are not alternatives
+				if (!emitted_sig.insert(nm + body).second) continue;
+			}
+			if (!first) O << ",";
+			first = false;
+			if (pass == 0)
+				O << "\n\"" << esc(nm) << "\":" << body;
+			else
+				O << "\n{\"name\":\"" << esc(nm) << "\",\"def\":" << body << "}";
 		}
-		O << "]}";
+		O << (pass == 0 ? "},\n" : "],\n");
 	}
-	O << "},\n";
 
 	// enumerators
 	O << "\"enums\":{";
